@@ -270,6 +270,11 @@ def sib5(ctx, pid):
             tt, pp = bit
             if tt[3] == ("call", "ext:eth_utils.to_int", (("p", "key"),), ()):
                 tt = (tt[0], tt[1], tt[3], tt[2])  # `&` is commutative
+            if bitvar is None:
+                # no moving mask (`(path >> i) & 1` over an enumeration, ...): a spelling of the bit walk this table
+                # does not read
+                unsure.append("the bit test `%s` is not of the moving-mask form (mask <<= 1 per level)" % tstr(tt)[:60])
+                continue
             if tt[3] != C(1):
                 probs.append("first tested bit is `%s`, expected 1 (LSB first, leaf -> root)" % tstr(tt[3])[:40])
             if st.env.get(bitvar) != ("bin", "<<", C(1), C(1)) and st.env.get(bitvar) != C(2):
@@ -510,6 +515,8 @@ def ord6(ctx, pid):
                 same = True
             elif 0 in st.facts.ne.get(pd, ()):
                 same = False
+            elif st.facts.truth.get(pd) is not None:
+                same = not st.facts.truth.get(pd)  # `if not path_diff:` - the truth of an int is `!= 0`
         lr = pq.local_raise(p)
         if lr is not None and p.exit[1].endswith("ValidationError") and same is False:
             n_refuse += 1
